@@ -342,6 +342,15 @@ def _apply_power_mapping(ufunc, in_unit, in_size, in_shape, input_kwarg_dict):
             count *= in_shape[ax]
     else:
         count = in_shape[axis]
+    where = input_kwarg_dict.get("where", True)
+    if where is not True and in_shape:
+        # only the selected elements are multiplied together
+        counts = np.count_nonzero(np.broadcast_to(where, in_shape), axis=axis)
+        if np.ptp(counts) != 0 and not (
+            in_unit.is_dimensionless and in_unit.base_value == 1.0
+        ):
+            raise UnitOperationError(ufunc, in_unit)
+        count = int(np.min(counts))
     unit = in_unit ** (power_map(count))
     return mul, unit
 
